@@ -882,6 +882,13 @@ pub fn installed() -> bool {
     WORLD.with(|c| c.try_borrow().map(|w| w.is_some()).unwrap_or(true))
 }
 
+/// Is harness code running right now (inside `with`: a hook, a platform or transport call, a
+/// device step)? Used by the allocator wrapper so that injected allocation failures only ever
+/// hit allocations made by the code under test. Does not allocate.
+pub fn in_harness() -> bool {
+    WORLD.try_with(|c| c.try_borrow_mut().is_err()).unwrap_or(true)
+}
+
 /// Runs `f` with the world. Panics (harness error) on re-entrancy.
 pub fn with<R>(f: impl FnOnce(&mut World) -> R) -> R {
     WORLD.with(|c| {
